@@ -24,7 +24,7 @@ EXPLANATION = (
     "(R6) the min-cost-flow network of the maximum edge antichain: demand = caller's weight (0 if missing) / 1 for input edges and 0 for synthetic edges; cost 1 exactly on edges leaving the source.  "
     " (R6, extended) the demand of the antichain network is selected by `weight_function is not None`; selecting by truth value (empty dict treated as absent) is a violation. "
     " (R7) numerics of the antichain / min-cost-flow substrate: saturated cut edges are collected by `demand > 0` (not >= 1), the supply exceeds the sum of the demands and the arcs are uncapacitated (no constant 2**32), ignored edges are deduplicated before multiplicities are decremented. "
-    "and the bottleneck DP takes min(predecessor value, edge value), updates value and predecessor together and reports the value of the path it reconstructs.  NOT decided: that the answers equal a direct graph search, "
+    "and the bottleneck DP takes min(predecessor value, edge value), updates value and predecessor together and reports the value of the path it reconstructs.  The peeling loop subtracts unconditionally on every edge of the path and never changes the topology of its working graph.  NOT decided: that the answers equal a direct graph search, "
     "antichain maximality, peeling arithmetic."
     ' (R7, round 3) non-integral weights reach the exact network simplex as fractions.'
     " (R1c, round 4) module-level functions that take the caller's graph are not memoised."
